@@ -298,6 +298,15 @@ func ParallelSlice[C any](r *Run, cases []C, fn func(c C)) {
 	r.Parallel(int64(len(cases)), func(i int64) { fn(cases[i]) })
 }
 
+// outRoot is /verif, or a scratch directory when VERIF_NO_EVIDENCE is set (runs against
+// deliberately broken trees must not overwrite the committed evidence).
+func outRoot() string {
+	if os.Getenv("VERIF_NO_EVIDENCE") != "" {
+		return filepath.Join(os.TempDir(), "verif-scratch-out")
+	}
+	return VerifRoot
+}
+
 func loadKnown() []knownEntry {
 	var ks []knownEntry
 	b, err := os.ReadFile(filepath.Join(VerifRoot, "known-findings.json"))
@@ -366,7 +375,7 @@ func (r *Run) writeReplay(f *Failure) string {
 		"case": f.Case, "expected": f.Expected, "actual": f.Actual}
 	b, _ := json.MarshalIndent(doc, "", " ")
 	h := sha256.Sum256([]byte(f.Sig))
-	dir := filepath.Join(VerifRoot, "replays")
+	dir := filepath.Join(outRoot(), "replays")
 	_ = os.MkdirAll(dir, 0o755)
 	path := filepath.Join(dir, r.ID+"-"+hex.EncodeToString(h[:5])+".json")
 	doc["repro"] = "./run " + r.ID + " --replay " + path
@@ -427,7 +436,7 @@ func (r *Run) writeEvidence(violations, knownHits int, sigs []string) {
 		ev["assumptions"] = []string{}
 	}
 	b, _ := json.MarshalIndent(ev, "", " ")
-	dir := filepath.Join(VerifRoot, "evidence")
+	dir := filepath.Join(outRoot(), "evidence")
 	_ = os.MkdirAll(dir, 0o755)
 	if err := os.WriteFile(filepath.Join(dir, r.ID+".json"), append(b, '\n'), 0o644); err != nil {
 		fmt.Fprintf(os.Stderr, "cannot write evidence: %v\n", err)
